@@ -212,8 +212,24 @@ def _s3(program, res):
     else:
         res.fail_at("C18-S3", sm, "limit-before-order-by", "the SQL suffix does not place LIMIT after ORDER BY", l3[0].stmt)
     # ORDER BY lists the order columns in the declared order
-    if any(isinstance(c, (ast.ListComp, ast.GeneratorExp)) and unparse(c.generators[0].iter) == "order_node.order_columns" and not c.generators[0].ifs
-           for c in ast.walk(o3[0].stmt)):
+    def _lists_order_columns(stmt) -> bool:
+        if any(isinstance(c, (ast.ListComp, ast.GeneratorExp)) and unparse(c.generators[0].iter) == "order_node.order_columns" and not c.generators[0].ifs
+               for c in ast.walk(stmt)):
+            return True
+        # through a private helper: self._h(order_node.order_columns, …) whose result is a comprehension over its first parameter, unfiltered
+        for c in ast.walk(stmt):
+            if isinstance(c, ast.Call) and isinstance(c.func, ast.Attribute) and isinstance(c.func.value, ast.Name) and c.func.value.id == "self" \
+                    and c.args and unparse(c.args[0]) == "order_node.order_columns" and sm.cls is not None:
+                h = sm.cls.find_method(c.func.attr)
+                if h is None:
+                    continue
+                p0 = [p_ for p_ in h.params() if p_ != "self"][0]
+                for r in ast.walk(h.node):
+                    if isinstance(r, ast.Return) and isinstance(r.value, (ast.ListComp, ast.GeneratorExp)) and unparse(r.value.generators[0].iter) == p0 \
+                            and not r.value.generators[0].ifs:
+                        return True
+        return False
+    if _lists_order_columns(o3[0].stmt):
         res.ok("C18-S3", "SQL: ORDER BY lists order_columns in declared order")
     else:
         res.fail_at("C18-S3", sm, "order-by-columns", "ORDER BY terms are not built from order_node.order_columns in order", o3[0].stmt)
